@@ -246,7 +246,7 @@ def main(pid, tier='quick', seed=0, replay=None):
         with open(path, 'w') as fh:
             json.dump({'property': pid, 'obligation': name, 'text': r.ob.text, 'backend': r.backend,
                        'solver_result': 'sat (negated goal satisfiable)', 'solver_model': r.model[:6000],
-                       'witness': witness, 'replayed_on_real_code': witness is not None,
+                       'witness': witness, 'replayed_on_real_code': witness is not None, 'tier': (native or {}).get('tier', tier), 'seed': seed,
                        'replay_cmd': f'./check {pid} --replay {path}'}, fh, indent=1)
         violations.append((name, path, witness is not None))
     # native failures that no refuted obligation accounts for
@@ -268,7 +268,7 @@ def main(pid, tier='quick', seed=0, replay=None):
         with open(path, 'w') as fh:
             json.dump({'property': pid, 'obligation': f'native executable contract `{f.get("clause")}`',
                        'related_unproved_obligations': related,
-                       'witness': f, 'replayed_on_real_code': True,
+                       'witness': f, 'replayed_on_real_code': True, 'tier': (native or {}).get('tier', tier), 'seed': seed,
                        'replay_cmd': f'./check {pid} --replay {path}'}, fh, indent=1)
         violations.append((f'native:{f.get("clause")}', path, True))
     printed = set()
